@@ -179,10 +179,13 @@ def enumerate_graphs(ctx, n, numbers, label):
             ctx.traces += 1
             if obs != exp:
                 bad += 1
-                diff = [f for f in exp if obs.get(f) != exp[f]] if "raised" not in obs else ["raised"]
-                ctx.violation("graph-algorithm-mismatch", {"nodes": n, "edges": es, "fields": diff,
-                                                           "expected": {f: exp[f] for f in diff[:3]},
-                                                           "observed": {f: obs.get(f) for f in diff[:3]} if "raised" not in obs else obs})
+                if "raised" in obs:
+                    ctx.violation("graph-algorithm-raised", {"nodes": n, "edges": es, "observed": obs})
+                else:
+                    diff = [f for f in exp if obs.get(f) != exp[f]]
+                    ctx.violation("graph-algorithm-mismatch", {"nodes": n, "edges": es, "fields": diff,
+                                                               "expected": {f: exp[f] for f in diff[:3]},
+                                                               "observed": {f: obs.get(f) for f in diff[:3]}})
     ctx.notes.setdefault("enumerations", []).append({"label": label, "nodes": n, "graphs": len(numbers), "mismatches": bad})
     return bad
 
